@@ -41,7 +41,7 @@ if os.path.exists(out):
         if not m:
             continue
         f = m.group(1)
-        if not any(f == a or (a.endswith('/') and f.startswith(a)) for a in anchors):
+        if not any(f == a or (a.endswith('/') and f.startswith(a)) for a in anchors) or 'verif_export' in f or not os.path.exists('/repo/' + f):
             continue
         key = (f, int(m.group(2)), int(m.group(3)), int(m.group(4)), int(m.group(5)), int(m.group(6)))
         blocks[key] = blocks.get(key, 0) + int(m.group(7))
